@@ -198,6 +198,11 @@ func runCase(c caseSpec) {
 		WriteQueueSize: 64,
 		PreStart: func(ts *rig.TestServer) {
 			ts.Core.OnRecordPacket = func(ss *gortsplib.ServerSession, _ *description.Media, _ format.Format, _ *rtp.Packet) {
+				// a deliberately slow application callback: a packet that is being processed
+				// while the session closes must be finished (or never started) before
+				// OnSessionClose is delivered
+				log.packet(ss)
+				time.Sleep(300 * time.Microsecond)
 				log.packet(ss)
 			}
 		},
